@@ -16,13 +16,13 @@ from ..desc import field, message, method, service, file, request
 from ..ref import names
 from ..report import HarnessError
 
-RULE = ('states = namespace depth(4) x version(5) x file layout(3) x dependency files(3) x proto file name(11) tiny APIs + '
+RULE = ('states = namespace depth(4) x version(5) x file layout(3, + a service-only target file) x dependency files(3) x proto file name(11) tiny APIs + '
         'every single option-string edit on a covering subset; oracle = reference layout/naming rules on file[*].name, '
         'supported_features, byte-identity for ignored options; non-trivial = distinct states whose response had >= 20 files')
 
 NAMESPACES = {0: (), 1: ('acme',), 2: ('acme', 'cloud'), 3: ('acme', 'cloud', 'deep')}
 VERSIONS = ['v1', 'v1beta1', 'v1p1beta1', 'v2alpha', '']
-LAYOUTS = ['one', 'two', 'two+sub']
+LAYOUTS = ['one', 'two', 'two+sub', 'two+svc-only']
 DEPS = ['none', 'wkt', 'foreign']
 FNAMES = {'plain': ['widgets'], 'dotted': ['my.file'], 'keyword': ['import'], 'control-metadata': ['metadata'],
           'control-request': ['request'], 'camel': ['MyWidgets'], 'hyphen': ['my-widgets'],
@@ -90,6 +90,14 @@ def build(ns_depth, version, layout, deps, fname_kind, parameter=''):
                                                              http=('get', '/v1/{name=gadgets/*}'))], host='widgets.example.com')])
         files.append(f2)
         targets.append((f2.name, pkg, ['GadgetService']))
+    svc_only = None
+    if layout == 'two+svc-only':
+        # a target file that declares a service and no message or enum (its request/response types live in the main file)
+        svc_only = file(f'{pdir}/admin_service.proto', pkg,
+                        services=[service('AdminService', [method('InspectWidget', Q('GetWidgetRequest'), Q('Widget'),
+                                                                   http=('get', '/v1/{name=widgets/*}:inspect'))], host='widgets.example.com')])
+        files.append(svc_only)
+        targets.append((svc_only.name, pkg, ['AdminService']))
     if layout == 'two+sub':
         sp = pkg + '.parts'
         f3 = file(f'{pdir}/parts/bolts.proto', sp, messages=[message('Bolt', [field('len', 1, 'int32')])])
@@ -99,6 +107,8 @@ def build(ns_depth, version, layout, deps, fname_kind, parameter=''):
     for f in files + dep_files:
         f.dependency.extend(std)
     main.dependency.extend(imports)
+    if svc_only is not None:
+        svc_only.dependency.append(main.name)
     req = request(files, parameter, extra_dep_files=dep_files)
     desc.gate(req)
     return req, dict(package=pkg, ns=ns, version=version, targets=targets,
@@ -199,6 +209,8 @@ def all_states():
     for s in itertools.product(NAMESPACES, VERSIONS, LAYOUTS, DEPS, FNAMES):
         if s[1] == '' and s[2] == 'two+sub':
             continue    # the generator requires a version when target files span several proto packages
+        if s[2] == 'two+svc-only' and s[4] != 'plain':
+            continue    # the service-only file is crossed with package shape, version and dependencies only
         if s[0] == 0 and s[1] == '' :
             pass
         yield s
